@@ -3,7 +3,7 @@ import OntVerif.Util.Hex
 /-! Line driver for C38: `W <prm> op;op;…` — wallet whose file carries scrypt parameter set `<prm>` (0 = no file yet / default).
 
 Account references: `k<i>` = person i (deterministic key, address i+1), `n<j>` = the account made by the j-th `new` op of the
-line (address 1000+j). Ops: `new:<label>:<scheme>:<pw>`, `imp:<k>:<label>:<alg>:<scheme>:<pw>:<prm>`, `del:<ref>:<pw>`,
+line (address 1000+j). Ops: `new:<label>:<scheme>:<pw>`, `imp:<k>:<label>:<alg>:<scheme>:<pw>:<prm>[:<metaIsDefault>]`, `del:<ref>:<pw>`,
 `def:<ref>`, `lab:<ref>:<label>`, `pw:<ref>:<old>:<new>`, `sch:<ref>:<scheme>`, `rl` (reopen). Labels: `-` = empty.
 Output: per-op error codes, then ` # ` and the observable state (all getters over the vocabulary of the line, which
 passwords open which account, and the result of a final `SetLabel(first labelled account, "")` probe). -/
@@ -42,7 +42,12 @@ def stepOp (st : St) (op : String) : Option (St × String) :=
     | _, _ => none
   | ["imp", k, l, alg, sch, pw, prm] =>
     match k.toNat?, alg.toNat?, sch.toNat?, pw.toNat?, prm.toNat? with
-    | some k, some alg, some sch, some pw, some prm => fin (st.w.importAccount (lab l) alg sch pw (k + 1) (k + 1) st.salt prm) st
+    | some k, some alg, some sch, some pw, some prm => fin (st.w.importAccount (lab l) alg sch pw (k + 1) (k + 1) st.salt prm false) st
+    | _, _, _, _, _ => none
+  | ["imp", k, l, alg, sch, pw, prm, d] =>
+    match k.toNat?, alg.toNat?, sch.toNat?, pw.toNat?, prm.toNat? with
+    | some k, some alg, some sch, some pw, some prm =>
+      fin (st.w.importAccount (lab l) alg sch pw (k + 1) (k + 1) st.salt prm (d == "1")) st
     | _, _, _, _, _ => none
   | ["del", r, pw] =>
     match parseRef r, pw.toNat? with
@@ -73,12 +78,14 @@ def opLabels (op : String) : List String :=
   match op.splitOn ":" with
   | ["new", l, _, _] => [l]
   | ["imp", _, l, _, _, _, _] => [l]
+  | ["imp", _, l, _, _, _, _, _] => [l]
   | ["lab", _, l] => [l]
   | _ => []
 def opPws (op : String) : List Nat :=
   match op.splitOn ":" with
   | ["new", _, _, pw] => pw.toNat?.toList
   | ["imp", _, _, _, _, pw, _] => pw.toNat?.toList
+  | ["imp", _, _, _, _, pw, _, _] => pw.toNat?.toList
   | ["del", _, pw] => pw.toNat?.toList
   | ["pw", _, o, n] => o.toNat?.toList ++ n.toNat?.toList
   | _ => []
